@@ -595,6 +595,154 @@ def _loop_exits(for_node: ast.For) -> List[ast.stmt]:
     return out
 
 
+def _stmts_expr(stmts: List[ast.stmt], env: Dict[str, ast.AST], budget=None) -> ast.AST:
+    """value returned by a straight-line / if-return function body as ONE expression (`A if c else <rest>`)"""
+    budget = budget if budget is not None else [200]
+    budget[0] -= 1
+    if budget[0] < 0:
+        raise _Undecided(stmts[0] if stmts else None, "predicate body too large to fold into an expression")
+    if not stmts:
+        return ast.Constant(value=None)
+    st, rest = stmts[0], stmts[1:]
+    if isinstance(st, ast.Return):
+        return subst(st.value, env) if st.value is not None else ast.Constant(value=None)
+    if isinstance(st, (ast.Pass, ast.Expr, ast.Assert)):
+        return _stmts_expr(rest, env, budget)
+    if isinstance(st, ast.If):
+        return ast.IfExp(test=subst(st.test, env), body=_stmts_expr(st.body + rest, env, budget),
+                         orelse=_stmts_expr(st.orelse + rest, env, budget))
+    if isinstance(st, (ast.Assign, ast.AnnAssign)):
+        tgts = st.targets if isinstance(st, ast.Assign) else [st.target]
+        if st.value is not None and len(tgts) == 1 and isinstance(tgts[0], ast.Name):
+            env2 = dict(env)
+            env2[tgts[0].id] = subst(st.value, env)
+            return _stmts_expr(rest, env2, budget)
+    raise _Undecided(st, f"statement kind {type(st).__name__} in a predicate helper cannot be folded into an expression")
+
+
+def _bool_simplify(e: ast.AST) -> ast.AST:
+    """an expression used only for its truth value: `False if c else X` -> `not c and X`, `True if c else X` -> `c or X`,
+    `X if c else False` -> `c and X`, `X if c else True` -> `not c or X`, `bool(X)` -> X"""
+    if isinstance(e, ast.Call) and isinstance(e.func, ast.Name) and e.func.id == 'bool' and len(e.args) == 1 and not e.keywords:
+        return _bool_simplify(e.args[0])
+    if isinstance(e, ast.BoolOp):
+        return ast.BoolOp(op=e.op, values=[_bool_simplify(v) for v in e.values])
+    if isinstance(e, ast.UnaryOp) and isinstance(e.op, ast.Not):
+        return ast.UnaryOp(op=ast.Not(), operand=_bool_simplify(e.operand))
+    if isinstance(e, ast.IfExp):
+        b, o = _bool_simplify(e.body), _bool_simplify(e.orelse)
+        if _is_const(b, False):
+            return ast.BoolOp(op=ast.And(), values=[_nnf(e.test, False), o])
+        if _is_const(b, True):
+            return ast.BoolOp(op=ast.Or(), values=[e.test, o])
+        if _is_const(o, False):
+            return ast.BoolOp(op=ast.And(), values=[e.test, b])
+        if _is_const(o, True):
+            return ast.BoolOp(op=ast.Or(), values=[_nnf(e.test, False), b])
+        return ast.IfExp(test=e.test, body=b, orelse=o)
+    return e
+
+
+def _inline_predicates(prog, f, cond: ast.AST, keep=()) -> ast.AST:
+    """calls of local predicate helpers in a filter condition replaced by their body: functions nested in f (other than those
+    named in `keep`) whose body is an if/return chain over their parameters, and immediately applied lambdas"""
+    nested = {g.name: g for g in prog.all_funcs() if g.parent is not None and g.parent.qual == f.qual and g.kind != 'lambda'
+              and g.name not in keep}
+
+    class T(ast.NodeTransformer):
+        depth = 0
+
+        def visit_Call(self, node):
+            self.generic_visit(node)
+            if node.keywords or any(isinstance(a, ast.Starred) for a in node.args):
+                return node
+            fn = node.func
+            if isinstance(fn, ast.Name) and fn.id not in nested and fn.id not in keep:
+                # a local bound once to a lambda:  accepted = lambda t: ..
+                from sa.flow import flow_of
+                defs = flow_of(f).defs_of(fn.id)
+                if len(defs) == 1 and defs[0].kind == 'assign' and isinstance(defs[0].value, ast.Lambda):
+                    fn = copy.deepcopy(defs[0].value)
+            if isinstance(fn, ast.Lambda):
+                a = fn.args
+                if a.vararg or a.kwarg or a.kwonlyargs or a.defaults or len(a.args) != len(node.args):
+                    return node
+                return _bool_simplify(subst(fn.body, {p.arg: v for p, v in zip(a.args, node.args)}))
+            if isinstance(fn, ast.Name) and fn.id in nested and self.depth < 4:
+                g = nested[fn.id]
+                a = g.node.args
+                if a.vararg or a.kwarg or a.kwonlyargs or a.defaults or len(a.args) != len(node.args):
+                    return node
+                if any(isinstance(n, (ast.For, ast.While, ast.Try, ast.With)) for n in walk_no_nested(g.node)):
+                    return node
+                try:
+                    e = _bool_simplify(_stmts_expr(g.body, {p.arg: v for p, v in zip(a.args, node.args)}))
+                except _Undecided:
+                    return node
+                self.depth += 1
+                try:
+                    return self.visit(e)
+                finally:
+                    self.depth -= 1
+            return node
+    return ast.fix_missing_locations(T().visit(copy.deepcopy(cond)))
+
+
+def _filter_atoms(c: ast.AST) -> List[Tuple[ast.AST, bool]]:
+    """conjuncts of a filter condition; a negated and/or is pushed inwards first (`not (k is not None and not k(t))` is the
+    atom `k is None or k(t)`)"""
+    out = []
+    for at, pol in facts.split_conj(c, True):
+        if not pol and isinstance(at, ast.BoolOp):
+            pos = _nnf(at, False)
+            if isinstance(pos, ast.BoolOp) and isinstance(pos.op, ast.And):
+                out += _filter_atoms(pos)
+            else:
+                out.append((pos, True))
+        else:
+            out.append((at, pol))
+    return out
+
+
+RESOLVER_ANCHOR = 'task._ImmutableTaskList.__get_task_attribute'
+
+
+def _find_resolver(prog, search):
+    """the attribute resolver behind the filters.  Today's anchor when it exists; otherwise the one package function that
+    `search` calls as `<fn>(<task parameter>, <name>)` (the private static getter moved to module level, into another
+    class, or nested into `__call__`)"""
+    if prog.has_func(RESOLVER_ANCHOR):
+        return prog.func(RESOLVER_ANCHOR)
+    a = search.node.args
+    task_p = a.args[0].arg if a.args else None
+    found = {}
+    for n in walk_no_nested(search.node):
+        if not (isinstance(n, ast.Call) and len(n.args) == 2 and not n.keywords and isinstance(n.args[0], ast.Name)
+                and n.args[0].id == task_p):
+            continue
+        fn, g = n.func, None
+        if isinstance(fn, ast.Name):
+            p = search.parent
+            while p is not None and g is None:          # nested in an enclosing function
+                g = next((x for x in prog.all_funcs() if x.parent is p and x.name == fn.id), None)
+                p = p.parent
+            g = g or prog.module_func(search.module.name, fn.id)
+            if g is None and fn.id in search.module.imports:
+                origin = prog.resolve_import(search.module, fn.id)
+                g = prog.funcs.get(origin) if origin else None
+        elif isinstance(fn, ast.Attribute):
+            nm = unmangle(fn.attr)
+            if isinstance(fn.value, ast.Name) and fn.value.id in prog.classes:
+                g = prog.find_method(fn.value.id, nm)
+            elif search.cls:
+                g = prog.find_method(search.cls, nm)
+        if g is not None:
+            found[g.qual] = g
+    if len(found) == 1:
+        return next(iter(found.values()))
+    return prog.func(RESOLVER_ANCHOR)        # raises AnchorMissing -> exit 2
+
+
 # =====================================================================================================================
 def check(ctx):
     prog = ctx.prog
@@ -608,6 +756,7 @@ def check(ctx):
     _readonly(ctx)
     _bulk_assign(ctx)
     _remove_all(ctx)
+    _remove_each(ctx)
 
 
 # ------------------------------------------------------------------------------------------------- C18.suffix_table
@@ -620,7 +769,7 @@ def _suffix_table(ctx):
 
     def body(o):
         f = prog.func('task._ImmutableTaskList.__call__.search')
-        resolver = prog.func('task._ImmutableTaskList.__get_task_attribute')
+        resolver = _find_resolver(prog, f)
         a = f.node.args
         if not a.args or a.kwarg is None:
             o.undecided(f, f.node, 'search signature', "search is not `search(task, **filters)`")
@@ -687,6 +836,16 @@ def _suffix_table(ctx):
         except _Undecided as u:
             o.undecided(f, u.node, u.node, u.msg)
             return
+        # `return <condition>` inside the loop is `if <condition>: return True` / `else: return False`
+        split = []
+        for p in paths:
+            if p.kind == 'return' and p.value is not None and not isinstance(p.value, ast.Constant) and \
+                    isinstance(p.value, (ast.Compare, ast.BoolOp, ast.UnaryOp, ast.Call)):
+                for a, r in _decide(p.value, p.node):
+                    split.append(_Path(p.atoms + a, 'return', ast.Constant(value=r), p.node))
+            else:
+                split.append(p)
+        paths = split
         V = _SearchVocab(task_p, key_v, val_is, resolver.name)
         for suffix in SPEC:
             _one_suffix(o, f, V, paths, suffix, tables)
@@ -761,7 +920,9 @@ def _one_suffix(o, f, V: _SearchVocab, paths: List[_Path], suffix: str, tables: 
             if _is_const(p.value, False):
                 outcome = 'reject'
             elif _is_const(p.value, True):
-                o.refute(f, p.node, p.node, f"{label}: `return True` inside the filter loop accepts the task without looking at the "
+                how = "`return True`" if _is_const(getattr(p.node, 'value', None), True) else \
+                    f"`{src(p.node)}` (returns True when the condition holds)"
+                o.refute(f, p.node, p.node, f"{label}: {how} inside the filter loop accepts the task without looking at the "
                                             f"remaining filters (every filter must hold)")
                 return
             else:
@@ -909,7 +1070,7 @@ def _resolver(ctx):
                floor=20)
 
     def body(o):
-        f = prog.func('task._ImmutableTaskList.__get_task_attribute')
+        f = _find_resolver(prog, prog.func('task._ImmutableTaskList.__call__.search'))
         params = [p for p in f.params if p not in ('self', 'cls')] if f.kind != 'static' else f.params
         if len(params) != 2:
             o.undecided(f, f.node, 'resolver signature', "resolver is not (task, attribute_name)")
@@ -1179,7 +1340,7 @@ def _call_returns(ctx):
             # ---------- filters
             atoms = []
             for c in ifs:
-                atoms += facts.split_conj(c, True)
+                atoms += _filter_atoms(_inline_predicates(prog, f, c, keep=(search.name,)))
             uses_key = uses_kw = False
             problem = False
             for at, pol in atoms:
@@ -1307,10 +1468,29 @@ def _readonly(ctx):
     def body(o):
         eff = Effects(prog, ctx.typer, ctx.cg)
         quals = ['task._ImmutableTaskList.__call__', 'task._ImmutableTaskList.__call__.search',
-                 'task._ImmutableTaskList.__get_task_attribute', 'task._ImmutableTaskList.order_by',
-                 'task._ImmutableTaskList.__iter__']
+                 'task._ImmutableTaskList.order_by', 'task._ImmutableTaskList.__iter__']
         funcs = [prog.func(q) for q in quals]
-        funcs += [g for g in prog.all_funcs() if g.parent is not None and g.parent.qual == 'task._ImmutableTaskList.order_by']
+        funcs.insert(2, _find_resolver(prog, funcs[1]))
+        # the key functions of order_by: its own lambdas / nested functions, or those of a key-function builder it calls
+        # (private helpers that are not in the baseline; baseline functions are covered by writes_star of order_by itself)
+        order_by = funcs[3]
+        builders = [order_by]
+        for ci in ctx.cg.calls_in(order_by):
+            for t in ci.targets:
+                if t is not None and t not in builders and t not in funcs and t.name.startswith('_') and \
+                        not (t.name.startswith('__') and t.name.endswith('__')) and \
+                        any(g.parent is not None and g.parent.qual == t.qual for g in prog.all_funcs()):
+                    builders.append(t)
+        funcs += builders[1:]
+        seen = {g.qual for g in funcs}
+        todo = list(builders)
+        while todo:
+            b = todo.pop(0)
+            for g in prog.all_funcs():
+                if g.parent is not None and g.parent.qual == b.qual and g.qual not in seen:
+                    seen.add(g.qual)
+                    funcs.append(g)
+                    todo.append(g)
         funcs += [g for n, g in sorted(prog.cls('Task').getters.items()) if not n.startswith('_')]
         for fn in funcs:
             a = getattr(fn.node, 'args', None)
@@ -1618,13 +1798,54 @@ def _remove_all(ctx):
             o.site(f, rets[-1], f"all {len(rets)} return(s) yield the match list (an empty list only when nothing matched)")
 
     def tree_walk(o):
-        f = prog.func('wbs.WBS.__remove')
-        if len(f.params) != 3:
-            o.undecided(f, f.node, '__remove signature', "unexpected signature")
+        f0 = prog.func('wbs.WBS.__remove')
+        if len(f0.params) != 3:
+            o.undecided(f0, f0.node, '__remove signature', "unexpected signature")
             return
-        SELF, TASK, CUR = f.params
+        # (function, name of its task parameter, name of its current-node parameter); `__remove` may hand the walk over to a
+        # private helper of the same class (`return self.__remove_below(task, current)` after the None pre-check)
+        chain = [(f0, f0.params[1], f0.params[2])]
+
+        def self_calls(f):
+            """calls `self.<method of the same class>(..)` in f -> [(call, callee)]"""
+            out = []
+            for n in walk_no_nested(f.node):
+                if isinstance(n, ast.Call) and isinstance(n.func, ast.Attribute) and match(f.params[0], n.func.value):
+                    g = prog.find_method(f.cls, unmangle(n.func.attr)) if f.cls else None
+                    if g is not None:
+                        out.append((n, g))
+            return out
+
+        while len(chain) < 4:
+            f, TASK, CUR = chain[-1]
+            known = {x[0].qual for x in chain}
+            calls = self_calls(f)
+            if facts.calls_named(f, 'remove') or any(g.qual in known for _, g in calls):
+                break
+            cands = []
+            for c, g in calls:
+                if len(g.params) != 3:
+                    continue
+                cargs = facts.bound_args(c, g)
+                if len(cargs) == 2 and all(isinstance(x, ast.Name) for x in cargs) and {cargs[0].id, cargs[1].id} == {TASK, CUR}:
+                    cands.append((c, g, cargs))
+            if len(cands) != 1:
+                break
+            c, g, cargs = cands[0]
+            bad = [(t, p) for t, p in facts.node_conditions(prog, f, c, ctx.typer) if not (match(f"{TASK} is None", t) and not p)]
+            if bad:
+                o.undecided(f, c, c, f"the walk is handed to {g.qual} only under a condition: " + ', '.join(facts.cond_texts(bad)))
+                return
+            gp = g.params[1:]
+            chain.append((g, gp[0] if cargs[0].id == TASK else gp[1], gp[1] if cargs[1].id == CUR else gp[0]))
+
+        f, TASK, CUR = chain[-1]
+        SELF = f.params[0]
         cfg = cfg_of(f)
         ex = Expander(prog, f, ctx.typer, inline=False)
+        by_name = {x[0].name: x for x in chain}
+        # helpers of the class this rule did not look into: "not found" is then not a closed-world statement
+        unfollowed = [g for _, g in self_calls(f) if g.name not in by_name and g.name not in ('remove',)]
 
         def is_children(e):
             return bool(match(f"{CUR}.children", e) or match(f"{CUR}._Task__children", e))
@@ -1641,22 +1862,36 @@ def _remove_all(ctx):
         direct = [c for c in all_removes if is_direct(c)]
         if direct:
             o.site(f, direct[0], src(direct[0]))
+        elif not all_removes and unfollowed:
+            o.undecided(f, f.node, 'children.remove', f"no `{CUR}.children.remove({TASK})` in {f.qual}, but it calls "
+                                                      f"{unfollowed[0].qual}, which this rule does not follow")
         elif not all_removes:
             o.refute(f, f.node, 'children.remove', f"the tree walk never removes the task from the current node's children "
                                                    f"(`{CUR}.children.remove({TASK})` missing)")
         else:
             o.undecided(f, all_removes[0], all_removes[0], f"`{src(all_removes[0])}` is not recognised as `{CUR}.children.remove({TASK})`")
-        rec = [c for c in facts.calls_named(f, '__remove') if isinstance(c.func, ast.Attribute) and match(SELF, c.func.value)]
+        rec = [(c, by_name[g.name]) for c, g in self_calls(f) if g.name in by_name]
+        if not rec and unfollowed:
+            o.undecided(f, f.node, 'recursion', f"no recursive descent in {f.qual}, but it calls {unfollowed[0].qual}, which this "
+                                                f"rule does not follow")
+            return
+        if not rec and any(isinstance(n, ast.While) for n in walk_no_nested(f.node)):
+            o.undecided(f, f.node, 'recursion', f"{f.qual} has no recursive call but a `while` loop: an iterative walk (explicit stack / "
+                                                f"queue) is not modelled by this rule")
+            return
         if not rec:
             o.refute(f, f.node, 'recursion', "the tree walk does not descend into the children: only root tasks can be removed")
             return
-        for c in rec:
+        for c, (callee, c_task, c_cur) in rec:
             cn = cfg.node_containing(c)
-            cargs = facts.bound_args(c, f)
-            if len(cargs) != 2 or cargs[0] is None or not match(TASK, cargs[0]) or not isinstance(cargs[1], ast.Name) or cn is None:
+            cargs = facts.bound_args(c, callee)
+            cp = callee.params[1:]
+            a_task = cargs[cp.index(c_task)] if len(cargs) == 2 else None
+            a_cur = cargs[cp.index(c_cur)] if len(cargs) == 2 else None
+            if a_task is None or not match(TASK, a_task) or not isinstance(a_cur, ast.Name) or cn is None:
                 o.undecided(f, c, c, "recursive call in an unexpected shape")
                 continue
-            child = cargs[1].id
+            child = a_cur.id
             comp = _enclosing_comp(f, c, child)
             fo = _enclosing_for(f, c, child)
             if comp is not None:
@@ -1696,5 +1931,165 @@ def _remove_all(ctx):
         variant(o, 'task._TaskList.remove_all', False)
         variant(o, 'wbs.WBS.remove_all', True)
         tree_walk(o)
+
+    ctx.guarded(o, body)
+
+
+# ------------------------------------------------------------------------------------------------- C18.remove_each
+def _strip_copy(e: ast.AST) -> ast.AST:
+    """list(X) / tuple(X) / X.copy() / X[:] / [v for v in X] -> X"""
+    while True:
+        if isinstance(e, ast.Call) and isinstance(e.func, ast.Name) and e.func.id in ('list', 'tuple', 'iter') and len(e.args) == 1 \
+                and not e.keywords:
+            e = e.args[0]
+        elif isinstance(e, ast.Call) and isinstance(e.func, ast.Attribute) and e.func.attr == 'copy' and not e.args:
+            e = e.func.value
+        elif isinstance(e, ast.Subscript) and isinstance(e.slice, ast.Slice) and e.slice.lower is None and e.slice.upper is None \
+                and e.slice.step is None:
+            e = e.value
+        else:
+            return e
+
+
+def _remove_each(ctx):
+    """remove_all calls `self.remove(t)` once per match on ONE list object.  Every concrete `remove` rebuilds the owner's list
+    and writes it through the owner's property setter; the source of the rebuild must be current at EVERY call: either the
+    owner's property read again, or the wrapper's own `_list` - but the latter only when the setter keeps the backing list
+    object (updates it in place).  A setter that binds a new list (`self.__predecessors = [..]`) leaves the wrapper with a
+    stale snapshot: the second removal rebuilds from it and re-adds what the first one removed."""
+    prog = ctx.prog
+    o = ctx.ob('remove_each', 'R4',
+               "`remove` of every concrete task list rebuilds the owner's list from a source that is current at every call of one "
+               "list object: the owner's property read again, or the wrapper's `_list` only if the property setter never rebinds "
+               "the backing field", floor=3)
+
+    def backing_field(ci, P):
+        """mangled name of the Task field the getter of P hands to the list wrapper as `_list` (None: not recognised)"""
+        g = prog.find_getter('Task', P)
+        ctor = prog.find_method(ci.name, '__init__')
+        if g is None or ctor is None:
+            return None
+        rets = [n for n in walk_no_nested(g.node) if isinstance(n, ast.Return) and n.value is not None]
+        if len(rets) != 1:
+            return None
+        v = Expander(prog, g, ctx.typer, inline=False).expand(rets[0].value)
+        if not (isinstance(v, ast.Call) and isinstance(v.func, ast.Name) and v.func.id == ci.name):
+            return None
+        lp = None
+        for n in walk_no_nested(ctor.node):
+            if isinstance(n, ast.Call) and isinstance(n.func, ast.Attribute) and n.func.attr == '__init__' and n.args \
+                    and isinstance(n.func.value, ast.Call) and getattr(n.func.value.func, 'id', '') == 'super' \
+                    and isinstance(n.args[0], ast.Name):
+                lp = n.args[0].id
+        if lp is None:
+            lp = '_list' if '_list' in ctor.params else None
+        if lp is None or lp not in ctor.params[1:]:
+            return None
+        args = facts.bound_args(v, ctor)
+        a = args[ctor.params[1:].index(lp)]
+        if isinstance(a, ast.Attribute) and isinstance(a.value, ast.Name) and a.value.id == g.params[0]:
+            return a.attr
+        return None
+
+    def rebinds(P, F):
+        """stores `self.<F> = <new object>` in the setter of P and in the private Task methods it calls on self"""
+        st = prog.find_setter('Task', P)
+        if st is None:
+            return None
+        funcs = [st]
+        for n in walk_no_nested(st.node):
+            if isinstance(n, ast.Call) and isinstance(n.func, ast.Attribute) and isinstance(n.func.value, ast.Name) \
+                    and n.func.value.id == st.params[0] and unmangle(n.func.attr).startswith('__'):
+                g = prog.find_method('Task', unmangle(n.func.attr))
+                if g is not None and g not in funcs:
+                    funcs.append(g)
+        out = []
+        for fn in funcs:
+            for node, tgt, val in facts.attr_stores(fn, F):
+                if isinstance(node, ast.AugAssign) or val is None:
+                    continue
+                if not (isinstance(tgt.value, ast.Name) and tgt.value.id == fn.params[0]):
+                    continue
+                if isinstance(val, ast.Attribute) and same(val, tgt):
+                    continue
+                out.append((fn, node))
+        return out
+
+    def one(o, ci, f):
+        if len(f.params) < 2:
+            o.undecided(f, f.node, 'remove signature', "remove is not (self, task)")
+            return
+        SELF = f.params[0]
+        cfg = cfg_of(f)
+        ex = Expander(prog, f, ctx.typer, inline=False)
+        stores = [(n, t, v) for n, t, v in facts.attr_stores(f)
+                  if v is not None and not (isinstance(t.value, ast.Name) and t.value.id == SELF)
+                  and prog.find_setter('Task', t.attr) is not None
+                  and ctx.typer.expr_type(t.value, f) in ('Task', None)]
+        if not stores:
+            # in-place removal from the wrapper's list: the same object at every call, and no setter runs in between
+            inplace = [n for n in walk_no_nested(f.node) if isinstance(n, ast.Call) and isinstance(n.func, ast.Attribute)
+                       and n.func.attr in ('remove', 'pop') and match(f"{SELF}._list", ex.expand(n.func.value, cfg.node_containing(n)))]
+            inplace += [n for n in walk_no_nested(f.node) if isinstance(n, ast.Delete) and any(
+                isinstance(t, ast.Subscript) and match(f"{SELF}._list", t.value) for t in n.targets)]
+            if inplace:
+                o.site(f, inplace[0], f"`{src(inplace[0])}`: removed in place from the wrapper's list (no setter call in between)")
+                return
+            o.undecided(f, f.node, 'remove',f"{f.qual} does not write the rebuilt list through a property of the owner task")
+            return
+        for node, tgt, val in stores:
+            P = tgt.attr
+            cn = cfg.node_of(node)
+            v = ex.expand(val, cn)
+            parts = facts.comp_parts(v) if isinstance(v, (ast.ListComp, ast.GeneratorExp)) else None
+            if parts is None and isinstance(v, ast.Call) and isinstance(v.func, ast.Name) and v.func.id in ('list', 'tuple') \
+                    and len(v.args) == 1:
+                inner = v.args[0]
+                if isinstance(inner, (ast.ListComp, ast.GeneratorExp)):
+                    parts = facts.comp_parts(inner)
+                elif isinstance(inner, ast.Call) and isinstance(inner.func, ast.Name) and inner.func.id == 'filter' and len(inner.args) == 2:
+                    parts = (None, None, inner.args[1], [])
+            if not parts:
+                o.undecided(f, node, val, f"the new `{P}` list `{src(v)[:80]}` is not a comprehension over the old list")
+                continue
+            source = _strip_copy(parts[2])
+            owner = ex.expand(tgt.value, cn)
+            F = backing_field(ci, P)
+            fresh = False
+            if isinstance(source, ast.Attribute) and same(source.value, owner) and source.attr in (P, F):
+                fresh = True
+            elif isinstance(source, ast.Attribute) and source.attr == '_list' and isinstance(source.value, ast.Attribute) \
+                    and same(source.value.value, owner) and source.value.attr == P:
+                fresh = True
+            if fresh:
+                o.site(f, node, f"{src(tgt)} rebuilt from `{src(source)}` (read again at every call)")
+                continue
+            if not (match(f"{SELF}._list", source) or match(SELF, source)):
+                o.undecided(f, node, source, f"the new `{P}` list is built from `{src(source)}`: neither the owner's `{P}` nor the "
+                                             f"wrapper's `_list`")
+                continue
+            if F is None:
+                o.undecided(f, node, source, f"the getter of Task.{P} is not `{ci.name}(self, self.<field>, ..)`: cannot tell which "
+                                             f"list the wrapper holds")
+                continue
+            rb = rebinds(P, F)
+            if rb is None:
+                o.undecided(f, node, source, f"Task.{P} has no setter")
+                continue
+            if rb:
+                fn, st = rb[0]
+                o.refute(f, node, val, f"`{src(tgt)}` is rebuilt from the wrapper's own snapshot `{src(source)}`, but the `{P}` setter "
+                                       f"binds a NEW list (`{src(st)}` in {fn.qual}): after the first removal the snapshot is stale, "
+                                       f"and the next removal through the same list object (remove_all with several matches) re-adds "
+                                       f"the tasks removed before - only the last match stays removed; rebuild from "
+                                       f"`{src(owner)}.{P}`")
+                continue
+            o.site(f, node, f"{src(tgt)} rebuilt from `{src(source)}`; the {P} setter updates `{unmangle(F)}` in place")
+
+    def body(o):
+        for ci in sorted(prog.subclasses('_TaskList'), key=lambda c: c.name):
+            f = ci.methods.get('remove')
+            if f is not None:
+                one(o, ci, f)
 
     ctx.guarded(o, body)
